@@ -34,7 +34,7 @@ prop('C02', ['K5', 'K6', 'NS1', 'K2', 'D2', 'T2', 'M7', 'K4', 'T1', 'T1e', 'T3',
      'atoms (T1) and their per-type caches cannot answer for a class that has died (T3, T3b).',
      ['equal dicts flatten equally for all inputs', 'None-removal law', 'predicate idempotence'])
 
-prop('C03', ['K1', 'K3', 'K4', 'K5', 'K7', 'K8', 'M7', 'F1', 'F14', 'F7', 'F10', 'T4', 'T2', 'NS1', 'D2', 'N1', 'N2', 'M1', 'K2', 'D5', 'L6'],
+prop('C03', ['K1', 'K3', 'K4', 'K5', 'K7', 'K8', 'M7', 'F1', 'F14', 'F7', 'F10', 'T4', 'T2', 'NS1', 'D2', 'N1', 'N2', 'M1', 'K2', 'D5', 'L6', 'B1'],
      'Sibling traversals agree, decided on the 5 x 11 arm matrix: per kind the same accessor on '
      'the same container class, the same key pipeline, the same arity source (K3); the same '
      'effective visiting order (K4), where a traversal that asks the shared key sort for another order gets it after every stage of the sort (T2) and every traversal hands its options down its own recursion unchanged (NS1) and every public entry point has the same option defaults (F14); the flatten variants read the dict-order mode the same way and record the namespace in the treespec under the same condition (D2); predicate first everywhere (K5); the same validations of a '
@@ -57,7 +57,7 @@ prop('C04', ['T5', 'N1', 'N2', 'N3', 'N4', 'N5', 'N6', 'F8', 'M4', 'K4'],
      'node_entries (M4); the backwards walkers reverse their result (K4).',
      ['accessor(tree) is the leaf', 'prefix-freeness of paths', 'codify/eval agreement'])
 
-prop('C05', ['F1', 'F14', 'F2', 'F3', 'F4', 'F11', 'W2', 'K3', 'M7', 'P1', 'P4', 'M2', 'M3', 'W1', 'U1', 'L6'],
+prop('C05', ['F1', 'F14', 'F2', 'F3', 'F4', 'F11', 'W2', 'K3', 'M7', 'P1', 'P4', 'M2', 'M3', 'W1', 'U1', 'L6', 'B1'],
      'tree_map family, structural part: options forwarded unchanged (F1); the six map functions, '
      'three transpose-map and three broadcast-map functions are one normal form modulo the '
      'declared variation points, with the extra iterable first (F2); every rest is matched by an '
@@ -95,7 +95,7 @@ prop('C07', ['P1', 'P2cxx', 'P2py', 'P3', 'P4', 'W1', 'H3', 'F12', 'F13', 'K3', 
      'flatten_up_to looks custom nodes up in the variant and namespace of the treespec (K2, NS1); prefix_errors walks with the one-level handlers of the Python registry (T4).',
      ['exactness over all pairs', 'offset arithmetic of the re-ordering branch'])
 
-prop('C08', ['I3', 'M5', 'M5b', 'M6', 'F9', 'F12', 'W3', 'T6', 'K1', 'K3', 'M7', 'M1', 'P5', 'K2', 'K4', 'M8'],
+prop('C08', ['I3', 'M5', 'M5b', 'M6', 'F9', 'F12', 'W3', 'T6', 'K1', 'K3', 'M7', 'M1', 'P5', 'K2', 'K4', 'M8', 'B1'],
      'Inspection / constructors: entry(i)/child(i) range test and normalisation dominate all uses '
      'of the index (I3); every new treespec gets none_is_leaf and namespace from its source(s) and '
      'passes the sanity check before it escapes (M5, 14 creation sites); a treespec derived from '
@@ -136,7 +136,7 @@ prop('C11', ['S1', 'S2', 'S3', 'K2', 'NS1'],
      'The loader looks custom types up in the recorded namespace (NS1).',
      ['cross-process behaviour', 'protocols', 'post-load equality'])
 
-prop('C12', ['G7', 'G1', 'G2', 'G3', 'G4', 'G8', 'G5', 'G6', 'L4', 'K6', 'K6py', 'NS1', 'D4', 'D5', 'I5'],
+prop('C12', ['G7', 'G1', 'G2', 'G3', 'G4', 'G8', 'G5', 'G6', 'L4', 'K6', 'K6py', 'NS1', 'D4', 'D5', 'I5', 'B1'],
      'Registry: validation dominates mutation and nothing fallible follows the first mutation '
      '(G1); no C-API failure result is ignored (G2); the Python mirror is written only after the '
      'engine call, under the lock, with the same key, by exactly two functions (G3); a mutation '
